@@ -14,6 +14,9 @@ CHECKS = {
  "C02": dict(cat="model_checking", ref="5/C02",
    tech="TLA+ spec Frame.tla (operational Decode vs declarative canonical-form WellFormed); TLC exhaustive enumeration of short strings, wire-level escape strings and all single mutations of seed frames (MC_FrameC02), each replayed on JTMessage.Decode; trace validation of random frames/corruptions (Trace_FrameC02)",
    text="TLC proves Decode(f).ok <=> WellFormed(f) on the specification for every string of three exhaustive families (all short strings without interior delimiter; valid header + every wire-level escape string with length/checksum exact and off by one, checksum escaped and raw; every single-bit flip, substitution, truncation, deletion, insertion of 14 seed frames of both versions with and without sub-package fields) and emits each with the verdict and the positional field values; the real decoder must agree on accept/reject and on every field. Random valid frames over all byte values (bodies to 1023, reserved bits, arbitrary version bytes and package numbers) and their corruptions, decoded by the real code, are validated by TLC against WellFormed and the field reading."),
+ "C17": dict(cat="model_checking", ref="5/C17",
+   tech="TLA+ spec Rtp.tla (DecodeOne/Loop); TLC exhaustive enumeration of packet streams cut at every length plus marker-like junk (MC_Rtp), each replayed on jt1078.Packet.Decode; trace validation of random streams (Trace_Rtp)",
+   text="TLC checks LoopExact on the Rtp specification for every stream of up to MaxPkts packets (every data type 0..15, marks, M bit, payload lengths) at every cut length, and JunkClassified for marker-alphabet prefixes padded around the 16- and 30-byte thresholds; every (stream, cut) is emitted with the expected sequence of packets (all header fields, payload) and final class and replayed on the real decoder with a fresh Packet per step. Seeded random streams with payloads 0..950 and beyond, random cuts and random strings are decoded by the real code and validated by TLC."),
 }
 
 NA_REASON = "check not built yet (work in progress; see DESIGN.md section 10)"
